@@ -53,6 +53,32 @@ def pushed_prefix_chars(d, rel="src/de/key.rs"):
     return re.findall(r"\.push\('([^'\\])'\)", "".join(_code_lines(p)))
 
 
+def preset_body(lib, path):
+    """body of a parameterless Options constructor with private helpers and the *other* parameterless constructors of
+    Options it starts from (`..Self::quick_xml_de()`) inlined"""
+    def pred(cb, t):
+        f = lib.fns.get(cb.name, {})
+        if not f.get("pub"):
+            return True
+        return not f.get("inputs") and f.get("impl_self", {}).get("adt") == "options::Options" and cb.name != path
+    return mir.inline_calls(lib, lib.bodies[path], pred)
+
+
+def returned_options(b):
+    """the Options aggregates that can be the returned value: built in the return place, or moved there"""
+    aggs = [s for s in b.assigns() if s.node["rv"]["k"] == "agg" and s.node["rv"].get("adt") == "options::Options"]
+    direct = [s for s in aggs if s.node["place"]["l"] == 0 and not s.node["place"]["p"]]
+    if direct:
+        return direct
+    out = []
+    for s in aggs:
+        l = s.node["place"]["l"]
+        if not s.node["place"]["p"] and any(a.node["place"]["l"] == 0 and not a.node["place"]["p"] and a.node["rv"]["k"] == "use" and
+                                           (mir.op_place(a.node["rv"]["op"]) or {}).get("l") == l for a in b.assigns()):
+            out.append(s)
+    return out or (aggs if len(aggs) == 1 else [])
+
+
 def preset_constants(lib):
     out = {}
     for path, f in lib.fns.items():
@@ -60,16 +86,17 @@ def preset_constants(lib):
             continue
         if f["inputs"]:
             continue
-        from .common import look_through_private
-        b = look_through_private(lib, lib.bodies[path])
-        for s in b.assigns():
-            rv = s.node["rv"]
-            if rv["k"] == "agg" and rv.get("adt") == "options::Options":
-                vals = {}
-                for name, o in zip(rv["fields"], rv["ops"]):
-                    t = strip(term_of(b, o), mir.VALUE_PRESERVING)
-                    vals[name] = t[1] if t[0] == "const" else ("" if t[0] == "call" and t[1] == "std::string::String::new" else None)
-                out[path.rsplit("::", 1)[1]] = (vals, s)
+        b = preset_body(lib, path)
+        rets = returned_options(b)
+        if len(rets) != 1:
+            continue
+        s = rets[0]
+        rv = s.node["rv"]
+        vals = {}
+        for name, o in zip(rv["fields"], rv["ops"]):
+            t = strip(term_of(b, o), mir.VALUE_PRESERVING)
+            vals[name] = t[1] if t[0] == "const" else ("" if t[0] == "call" and t[1] == "std::string::String::new" else None)
+        out[path.rsplit("::", 1)[1]] = (vals, s)
     return out
 
 
